@@ -32,6 +32,11 @@ POOL_LOCAL = [
     ("bad2.txt", "lit-a/needs/bad2.txt", None),
     # other ways to fail (no Python traceback is recorded for these): unknown command, failing link argument, conversion
     ("bad3.txt", "lit-a/nosuchcmd/bad3.txt", None),
+    # a value its declared extension cannot hold: the recipe fails (no bytes in another format under that name)
+    ("num.txt", "one/add-2/num.txt", None),
+    ("dict.txt", {"query": "mk-dict-2/dict.txt", "title": "A dictionary as txt"}, None),
+    # a recipe without any command: a copy of another entry under a new name
+    ("copy.txt", "./t1.txt/-/copy.txt", "t1.txt"),
     ("bad4.txt", "lit-a/cat-~X~/one/boom~E/bad4.txt", None),
     ("bad5.txt", {"query": "lit-a/add-x/bad5.txt", "title": "Bad 5"}, None),
     ("e1.txt", "lit-/ident/e1.txt", None),
@@ -45,6 +50,7 @@ POOL_SUB = [
     ("sbad.txt", "../bad.txt/-/ident/sbad.txt", "../bad.txt"),
     # transformations that would turn "no data" into a normal-looking text if the failed dependency did not stop them
     ("sbad2.txt", "../bad.txt/-/cat-w/sbad2.txt", "../bad.txt"),
+    ("scopy.txt", {"query": "../t1.txt/-/scopy.txt", "title": "Copy"}, "../t1.txt"),
 ]
 POOL_SUB2 = [
     ("u1.txt", "lit-u/cat-v/u1.txt", None),
